@@ -5,6 +5,7 @@ import simplify
 
 ID = "C14"
 THEOREMS = ["simplify_normal_form", "simp_nf", "simplify_output_wf", "proj_of_tuple", "proj_of_list", "proj_of_dict_key", "proj_of_dict_attr", "name_substituted", "rule_tuple_index", "rule_list_index"]
+LEANCHECKER_MODULES = ["Fadl.Props.C14Normal", "Fadl.Props.C18Total", "Fadl.Props.C14", "Fadl.Props.C02Rules"]  # re-checked by leanchecker in the thorough tier
 RULE = (
     "generated pack chains (harness/simplify.py: gen_packchain): 2-5 Select/Where/SelectMany stages over ds in function "
     "form; every intermediate stage packages leaf expressions into a random nesting (depth <= 2) of tuples, lists and "
